@@ -40,10 +40,14 @@ def _engine():
     return _ENG
 
 
-def _init_worker(proto: dict, tree: str) -> None:
-    global _PROTO, TREE
+_KNOWN_LABELS: list = []
+
+
+def _init_worker(proto: dict, tree: str, known_labels: list | None = None) -> None:
+    global _PROTO, TREE, _KNOWN_LABELS
     _PROTO = proto
     TREE = tree
+    _KNOWN_LABELS = list(known_labels or [])
 
 
 def _worker(job: tuple) -> dict:
@@ -62,6 +66,14 @@ def _worker(job: tuple) -> dict:
             if shard != 0:
                 obs = [ob for ob in obs if ob.kind not in ("cover", "unsupported")]
         rows = []
+        if tier == "quick":
+            # obligations of listed known findings are expected to be refutable; searching a counter-model for each
+            # of them on every run is the expensive part, so the quick tier leaves them to the bounded witness of the
+            # finding (thorough still attacks them)
+            for ob in obs:
+                if ob.status == "open" and any(lab in ob.label for lab in _KNOWN_LABELS):
+                    ob.status = "known-skipped"
+                    ob.detail = "obligation of a listed known finding: not attempted in the quick tier"
         from pyvc.solve import reset_budget
         reset_budget(6 if tier == "quick" else 20)
         from pyvc.solve import discharge_all
@@ -164,12 +176,14 @@ def main() -> int:
         nproc = min(int(os.environ.get("PYVC_PROCS", "16")), len(jobs))
         # spawn, not fork: z3 state created in the parent (contexts, timer threads) is not fork-safe
         ctx = mp.get_context("spawn")
-        with ctx.Pool(nproc, initializer=_init_worker, initargs=(_PROTO, TREE)) as pool:
+        klabels = [k["match"]["label"] for k in load_known() if k["property"] and k.get("status") == "known" and k.get("match", {}).get("label")]
+        with ctx.Pool(nproc, initializer=_init_worker, initargs=(_PROTO, TREE, klabels)) as pool:
             results = pool.map(_worker, jobs, chunksize=1)
     errors = [r for r in results if r.get("error")]
     rows = [dict(row, contract=r["key"]) for r in results for row in r["rows"] if pid in row["serves"]]
     covers = [r for r in rows if r["kind"] == "cover"]
-    proof_rows = [r for r in rows if r["kind"] != "cover"]
+    skipped_known = [r for r in rows if r["status"] == "known-skipped"]
+    proof_rows = [r for r in rows if r["kind"] != "cover" and r["status"] != "known-skipped"]
     known = [k for k in load_known() if k["property"] == pid and k.get("status") == "known"]
     refuted, known_hits = [], []
     for r in proof_rows:
@@ -280,6 +294,7 @@ def main() -> int:
         "undecided": [r["name"] for r in undecided],
         "refuted": [r["name"] for r in refuted][:50],
         "known_findings": sorted(reported_known),
+        "known_finding_obligations_not_attempted": sorted({r["name"] for r in skipped_known}),
         "vacuity": {"preconditions_checked_satisfiable": len(covers), "contradictory": len(vacuous)},
         "bounded": None if bounded is None else {k: bounded.get(k) for k in
                                                  ("label", "scope", "evaluations", "distinct_nontrivial", "rule", "samples", "failures_n")},
